@@ -143,9 +143,9 @@ theorem unescape_cons (fuel : Nat) (c : Char) (rest : List Char) :
         | _ => none
       else if c = '$' ∨ c = '%' then
         match rest with
+        | '{' :: _ => none
         | c' :: '{' :: r => if c' = c then (fun t => c :: '{' :: t) <$> unescape fuel r
                             else (c :: ·) <$> unescape fuel rest
-        | '{' :: _ => none
         | _ => (c :: ·) <$> unescape fuel rest
       else if c = '"' ∨ c = '\n' ∨ c = '\r' then none
       else (c :: ·) <$> unescape fuel rest := by
@@ -170,18 +170,16 @@ theorem unescape_intro_safe (fuel : Nat) (c : Char) (hc : c = '$' ∨ c = '%') (
   rw [unescape_cons]
   simp only [hbs, if_false, hc, if_true]
   split
-  · next c' r =>
+  · next r => exact absurd rfl (hE.1 _)
+  · next c' r _ =>
     split
     · next h => subst h; exact absurd rfl (hE.2 r)
     · rfl
-  · next r => exact absurd rfl (hE.1 _)
   · rfl
 
 theorem unescape_intro_doubled (fuel : Nat) (c : Char) (hc : c = '$' ∨ c = '%') (E : List Char) :
     unescape (fuel+1) (c :: c :: '{' :: E) = (fun t => c :: '{' :: t) <$> unescape fuel E := by
-  have hbs : c ≠ '\\' := by rcases hc with h | h <;> subst h <;> decide
-  rw [unescape_cons]
-  simp [hbs, hc]
+  rcases hc with h | h <;> subst h <;> (rw [unescape_cons]; simp)
 
 theorem pre_head_bs (isPrint : Char → Bool) (d : Char) (t : List Char)
     (hd : ¬ (d = '$' ∨ d = '%')) (hp : ¬ (isPrint d = true ∧ d ≠ '\n' ∧ d ≠ '\r' ∧ d ≠ '\t' ∧ d ≠ '"' ∧ d ≠ '\\')) :
